@@ -220,10 +220,10 @@ void h_chain_store(void) {
     if (i < cnt) { _Bool eq = L > P; for (size_t k = 0; k < ID_MAX; k++) { if (k >= P && k < L && SymbolString_dataAt(&master, k) != m.m_ids.e[i].d[2 + k]) eq = 0; } if (eq) exp = i; }
   }
   result_t r = Chained_storeLast(&m, &master, &slave);
-  if (!prefix_ok || exp == CH_CAP) { __CPROVER_assert(r == RESULT_ERR_INVALID_ARG, "[C09] a telegram that is no part of the chain is not stored"); }
+  if (!prefix_ok || exp == CH_CAP) { __CPROVER_assert(r == RESULT_ERR_INVALID_ARG, "[C08,C09] a telegram that is no part of the chain is not stored (ChainedMessage::checkId rejects it)"); }
   else {
     __CPROVER_assert(r >= RESULT_OK || r == RESULT_ERR_INVALID_POS, "[C09] a part of the chain is stored");
-    __CPROVER_assert(!SymbolString_differs(&pm[exp], &master) && !SymbolString_differs(&ps[exp], &slave), "[C09] the telegram is stored as the part whose id it carries");
+    __CPROVER_assert(!SymbolString_differs(&pm[exp], &master) && !SymbolString_differs(&ps[exp], &slave), "[C08,C09] the telegram is stored as the part whose id it carries (ChainedMessage::checkId identifies the part by all its id bytes)");
     for (int i = 0; i < CH_CAP; i++) __CPROVER_assert((size_t)i >= cnt || PART_OK(&m, pm, i, L), "[C09] stored parts carry the complete id (invariant)");
     if (r == RESULT_OK) {
       /* combined value */
